@@ -262,6 +262,9 @@ def _run(tier, seed, t0, on_accept=None):
                 logic.mk_if(p, T_, F_), logic.mk_if(p, F_, T_), logic.mk_if(p, T_, q), logic.mk_if(p, q, F_),
                 logic.mk_if(p, F_, q), logic.mk_if(p, q, T_), logic.mk_if(p, logic.mk_if(p, q, r), r),
                 logic.mk_if(p, q, logic.mk_if(p, q, r)), logic.mk_xor(p, q),
+                # nested conditionals whose inner condition is ANOTHER one
+                logic.mk_if(p, logic.mk_if(r, q, p), r), logic.mk_if(p, q, logic.mk_if(q, p, r)),
+                logic.mk_if(p, logic.mk_if(Not(p), q, r), r), logic.mk_if(p, q, logic.mk_if(Not(p), r, q)),
                 K.less(IntType)(i1, i2), K.less(IntType)(i2, i1), K.less(IntType)(x, x), K.less_eq(IntType)(i1, i2),
                 K.less_eq(IntType)(i2, i1), K.less_eq(IntType)(x, x), K.greater_eq(IntType)(x, y),
                 K.greater(IntType)(x, y), K.less(IntType)(x, y), K.less_eq(IntType)(x, y),
@@ -276,7 +279,7 @@ def _run(tier, seed, t0, on_accept=None):
     pl, mi, ti, um = K.plus(IntType), K.minus(IntType), K.times(IntType), K.uminus(IntType)
     int_lhs = [pl(x, i0), pl(i0, x), pl(i1, i2), pl(pl(x, i1), i2), pl(pl(i1, x), i2), mi(x, x), mi(x, i0), mi(i0, x),
                mi(i3, i1), mi(x, y), ti(x, i0), ti(i0, x), ti(x, i1), ti(i1, x), ti(i2, i3), ti(ti(i2, x), i3),
-               um(um(x)), um(i1), um(i0), um(x), logic.mk_if(T_, x, y), logic.mk_if(F_, x, y), logic.mk_if(p, x, x),
+               um(um(x)), um(i1), um(i0), um(x), um(mi(x, y)), um(pl(x, y)), um(mi(y, x)), mi(um(x), y), um(ti(x, y)), logic.mk_if(T_, x, y), logic.mk_if(F_, x, y), logic.mk_if(p, x, x),
                logic.mk_if(Not(p), x, y)]
     int_rhs = [x, y, i0, i1, i2, i3, Int(5), Int(6), Int(-1), um(x), pl(x, i3), pl(i3, x), ti(Int(6), x), ti(x, Int(6)),
                pl(x, um(y)), mi(y, x), logic.mk_if(p, y, x), logic.mk_if(p, x, y)]
@@ -286,6 +289,39 @@ def _run(tier, seed, t0, on_accept=None):
     pairs = [(l, r_) for l in bool_lhs for r_ in bool_rhs + [l]] + [(l, r_) for l in int_lhs for r_ in int_rhs + [l]]
     if tier == 'quick':
         pairs = rng.sample(pairs, 1200)
+    # sums / products of 2-5 factors (variables WITH multiplicity, numerals incl. 0 and 1) against the constant folded
+    # in front of: the same factors reordered (valid), one occurrence dropped or duplicated, the constant perturbed
+    def chain(op, l):
+        t = l[0]
+        for u in l[1:]:
+            t = op(t, u)
+        return t
+    ac_pairs = []
+    for _ in range(150 if tier == 'quick' else 1500):
+        op, unit, fold = rng.choice([(ti, 1, lambda a, b: a * b), (pl, 0, lambda a, b: a + b)])
+        n_f = rng.choice([2, 3, 3, 4, 5])
+        facs = [rng.choice([x, x, y, z]) if rng.random() < 0.65 else Int(rng.choice([0, 1, 2, 2, 3, -1]))
+                for _ in range(n_f)]
+        lhs_t = chain(op, facs)
+        const = unit
+        for f_ in facs:
+            if f_.is_number():
+                const = fold(const, f_.dest_number())
+        rest = [f_ for f_ in facs if not f_.is_number()]
+        variants = [list(rest), list(reversed(rest))]
+        if rest:
+            variants.append(rest[1:])                            # one occurrence dropped
+            variants.append(rest + [rest[0]])                    # one occurrence duplicated
+            variants.append(sorted(set(rest), key=str))         # multiplicities forgotten
+        for rv in variants:
+            for c_ in (const, const + 1):
+                for with_const in (True, False):
+                    parts = ([Int(c_)] if with_const else []) + rv
+                    if parts:
+                        ac_pairs.append((lhs_t, chain(op, parts)))
+                        if len(parts) > 1:
+                            ac_pairs.append((lhs_t, chain(op, parts[1:] + parts[:1])))
+    pairs += ac_pairs
     for l, r_ in pairs:
         for name in eq_rules:
             try_rule(name, (Eq(l, r_),), [], 'rewrite')
